@@ -104,6 +104,10 @@ def gen_case(rng):
                 # an option with a registry-illegal length (skipped by the decoder) in front of Observe
                 lines.append("arrivex %d %d %s %d %s" % (tok, code, seq, t, tag()))
                 kinds.add("skipped-option-before-observe")
+            elif seq != "-" and int(seq) < (1 << 24) and rng.random() < 0.12:
+                # the Observe value zero-padded to three bytes (legal: RFC 7252 section 3.2)
+                lines.append("arrivep %d %d %s %d %s" % (tok, code, seq, t, tag()))
+                kinds.add("observe-with-leading-zeros")
             elif st != "pending" and rng.random() < 0.08:
                 # the token value without its leading zero bytes: a different token (length is part of a token), nobody's
                 lines.append("arrivez %d %d %s %d %s" % (tok, code, seq, t, tag()))
@@ -137,7 +141,7 @@ def dl(line):
     detail below the model (it decides which exit of NewObservation a later `regabort` takes: waiting for the first
     response, or the write itself failing because the ACK never came)"""
     f = line.split()
-    if f[0] == "arrivex":
+    if f[0] in ("arrivex", "arrivep"):
         return "arrive " + " ".join(f[1:])
     if f[0] == "cancel" and len(f) == 4:
         return "cancel %s %s" % (f[1], f[2])     # Cancel with a context that has already ended is a cancellation all the same
